@@ -665,6 +665,22 @@ def gen_array(ctx):
     n = rng.choice([0, 1, 2, 3, 5, 8, 12])
     tr = rng.choice([0, 0, 1, size - 1, rng.randrange(size)]) if size > 1 else 0
     data = rb(rng, n * size + tr) if rng.random() < 0.8 else util.content(rng, n * size + tr)
+    if n and size in (16, 32, 64) and ('float' in dt or dt in ('>f', '<d')) and rng.random() < 0.4:
+        # the extreme finite codes of the format: largest magnitude of either sign, smallest subnormal, smallest normal
+        code = rng.choice({16: ['7bff', 'fbff', '0001', '0400', '8001', '7bfe'], 32: ['7f7fffff', 'ff7fffff', '00000001', '00800000', '7f7ffffe'],
+                           64: ['7fefffffffffffff', 'ffefffffffffffff', '0000000000000001', '0010000000000000']}[size])
+        raw = bytes.fromhex(code)
+        if 'le' in dt or dt.startswith('<') or ('ne' in dt and __import__('sys').byteorder == 'little'):
+            raw = raw[::-1]
+        item = ''.join(format(b, '08b') for b in raw)
+        k = rng.randrange(n)
+        data = data[:k * size] + item + data[(k + 1) * size:]
+    if size in (16, 32, 64) and ('float' in dt or dt in ('>f', '<d', 'bfloat', 'bfloatle')) and rng.random() < 0.12:
+        # many items that all compare equal although they are not the same: zeros of either sign
+        n = rng.choice([2, 3, 31, 32, 33, 40])
+        neg = ('1' + '0' * (size - 1)) if not ('le' in dt or dt.startswith('<') or ('ne' in dt and __import__('sys').byteorder == 'little')) else ('0' * (size - 8) + '10000000')
+        data = ''.join(rng.choice(['0' * size, neg]) for _ in range(n))
+        tr = 0
     c = {'kind': 'array', 'dtype': dt, 'data': data, 'pp': None}
     if rng.random() < 0.6:
         f1 = rng.choice(F)
